@@ -27,22 +27,22 @@ claim("C03", "other",
   "abstract interpretation (nil-ness/shapes) + linear-inequality entailment with inferred invariants", "DESIGN.md section 3 C03")
 
 claim("C01", "other",
-  "Structural necessary conditions of the verdict's correctness, each decided on every run for all inputs: every kind of node contributes on every path of every dispatcher of the expansion (X1, abstract interpretation per node shape), no positional selection or re-slicing of alternative lists (X2), ownership of every append to a node slice (X3), nodes are neither constructed nor mutated by the expansion (X5), the verdict is derived as the formula 'exists alternative, forall term, exists allowed node: pair matches' from the loops and early exits (X4), AND binds tighter than OR and parentheses are transparent by construction of the parser (P1).",
+  "Structural necessary conditions of the verdict's correctness, each decided on every run for all inputs: every kind of node contributes on every path of every dispatcher of the expansion (X1, abstract interpretation per node shape), no positional selection or re-slicing of alternative lists (X2), ownership of every append to a node slice (X3), nodes are neither constructed nor mutated by the expansion (X5), the verdict is derived as the formula 'exists alternative, forall term, exists allowed node: pair matches' from the loops and early exits (X4), AND binds tighter than OR and parentheses are transparent by construction of the parser, and no operand is returned alone in place of the joined node except under an identity guard (P1); the allowed nodes are built, sorted and compacted under S1/S3 with an unrewritten canonical text as key (S5).",
   "Does not decide that appendTerms/mergeTerms compute exactly the cross product, nor the pair matcher (C02). Trusted: go/ssa lowering; shape tables are derived from the construction sites of the current tree.",
   "abstract interpretation over node shapes + slice-ownership + loop-to-quantifier summarisation + parser layering", "DESIGN.md section 3 C01")
 
 claim("C06", "other",
-  "'No term lost, none invented' along parse -> expand -> flatten -> canonical text -> de-duplicate, decided structurally: the expansion rules shared with C01 (X1, X2, X3, X5), the expansion never filters alternatives or terms (X6), the pipeline is element-wise, total and unconditional (E1), de-duplication keeps first occurrences only (E2), canonical text uses all and only the node's canonical fields (E3), printer constants are scanner keywords (E4).",
+  "'No term lost, none invented' along parse -> expand -> flatten -> canonical text -> de-duplicate, decided structurally: the expansion rules shared with C01 (X1, X2, X3, X5), the expansion never filters alternatives or terms (X6), the pipeline is element-wise, total and unconditional (E1), de-duplication keeps first occurrences only (E2), canonical text uses all and only the node's canonical fields (E3), printer constants are scanner keywords (E4), the text is used as assembled — not trimmed, replaced, case-mapped or sliced afterwards, white-space trimming excepted (E5).",
   "The round-trip equalities themselves (a returned string re-parses to the same term; the result satisfies the expression) are value-level and not decided. Trusted: go/ssa lowering.",
   "abstract interpretation + loop-shape recognition + printer/scanner constant agreement", "DESIGN.md section 3 C06")
 
 claim("C07", "other",
   "Sound sufficient condition for set-semantics and monotonicity of the allowed list: independent construction of allowed nodes (S1), only permutation/compaction before use (S3), the allowed nodes occur in the derived verdict formula only as the domain of one positive existential (S2), the caller's list is only read (S4), spacing cannot reach the parser (W1), letter case is canonicalised before any comparison (K0-K3).",
-  "S3 follows the node slice through every function it reaches and requires the compaction to drop an element only when its canonical text equals its neighbour's; the letter-case clause is decided by the canonicalisation chain K0-K3 (same rules as C09); the matcher-purity premise of S2 and the quantifier shape of the verdict are checked (X4). Residual not decided: equal canonical text implies equal node fields.",
+  "S3 follows the node slice through every function it reaches and requires the compaction to drop an element only when its canonical text equals its neighbour's; the letter-case clause is decided by the canonicalisation chain K0-K3 (same rules as C09); the matcher-purity premise of S2 and the quantifier shape of the verdict are checked (X4). S5: the canonical text that serves as sort/compaction key is used as assembled (the printer and the helpers rendering its parts do not trim, replace, case-map or slice it; white-space trimming excepted). Residual not decided: that the assembled parts separate any two different nodes (C06 E3 decides which parts are written).",
   "loop-to-quantifier summarisation with polarity + taint + write-set classification", "DESIGN.md section 3 C07")
 
 claim("C10", "other",
-  "Narrow structural claim: the clauses whose failure produced the known shape asymmetries (X1-X4 as in C01), transparency of parentheses and precedence by construction (P1), spacing non-interference (W1), and agreement of all expansion dispatchers on the callee family per node kind (SIB).",
+  "Narrow structural claim: the clauses whose failure produced the known shape asymmetries (X1-X4 as in C01), transparency of parentheses and precedence by construction (P1, including: a node constructor or parser function returns one operand alone, after both were parsed, only under a guard of pointer equality or == of canonical texts), spacing non-interference (W1), and agreement of all expansion dispatchers on the callee family per node kind (SIB).",
   "Commutativity, associativity, idempotence, absorption and distribution as algebraic laws of the expansion are NOT decided (relations over unboundedly many pairs of runtime trees).",
   "abstract interpretation + sibling cross-check of dispatchers", "DESIGN.md section 3 C10")
 
@@ -52,7 +52,7 @@ claim("C04", "other",
   "call-graph who-may-call + abstract interpretation of result tuples + error provenance", "DESIGN.md section 3 C04")
 
 claim("C05", "other",
-  "Narrow necessary conditions of 'the accepted language is the SPDX grammar': scanner/parser operator and token-role tables agree (G1, G3), keyword order (G2), every buffer rewrite keeps all unread input and every cursor advance covers only matched text (G4, linear entailment under inferred cursor invariants), acceptance only at end of input (G5), consumption implies error or progress (G6, abstract interpretation with a symbolic cursor), every listed id is readable (G7), the id reader's byte class is exactly the SPDX idstring alphabet [A-Za-z0-9.-] (G10: what a LicenseRef/DocumentRef name may consist of), precedence layering and parenthesis transparency (P1).",
+  "Narrow necessary conditions of 'the accepted language is the SPDX grammar': scanner/parser operator and token-role tables agree (G1, G3), keyword order (G2), every buffer rewrite keeps all unread input and every cursor advance covers only matched text (G4, linear entailment under inferred cursor invariants), acceptance only at end of input (G5), consumption implies error or progress (G6, abstract interpretation with a symbolic cursor), every listed id is readable (G7), the id reader's byte class is exactly the SPDX idstring alphabet [A-Za-z0-9.-] (G10: what a LicenseRef/DocumentRef name may consist of), one ':' per reference atom (G11: the code that runs after a successful ':' probe neither probes for ':' again, nor calls a parser function that can consume ':', nor loops back to the probe), precedence layering and parenthesis transparency (P1).",
   "G8/G8p: one '+' per license atom, decided by evaluating the extracted lookup plan on X++ for every listed id, and the parser's '+' probe is independent of the token's text. W1: parse uses its argument only for the emptiness test and as the scanner's input (no cache or pre-normalisation keyed by a transformed text). G9: no error is recorded by the scanner on a path behind a successful lookup/normalisation (a listed id is never rejected afterwards). Language equality itself is NOT decided (e.g. which interleavings of WITH, ':' are accepted). No recogniser is extracted and run.",
   "writer/reader table agreement + linear entailment on cursor arithmetic + abstract interpretation of the token cursor", "DESIGN.md section 3 C05")
 
